@@ -350,8 +350,11 @@ func ruleC05LessTable(c *Ctx) {
 	}
 	atoms := []Atom{
 		{Name: "empty", Dom: boolDom, Match: func(t *Term) bool {
-			// len(orderBy) == 0
-			return t.Op == "bin" && t.Name == "==" && t.Args[1].Op == "const" && t.Args[1].Name == "0" && t.Args[0].Op == "call" && t.Args[0].Name == "builtin:len" && t.Args[0].Args[0].Op == "param" && t.Args[0].Args[0].Name == ob
+			// len(orderBy) == 0, or the same test of a length spelled `< 1` / `<= 0` (refactoring round 11, pipeline11-r1)
+			if !(t.Op == "bin" && len(t.Args) == 2 && t.Args[1].Op == "const" && t.Args[0].Op == "call" && t.Args[0].Name == "builtin:len" && t.Args[0].Args[0].Op == "param" && t.Args[0].Args[0].Name == ob) {
+				return false
+			}
+			return t.Name == "==" && t.Args[1].Name == "0" || t.Name == "<" && t.Args[1].Name == "1" || t.Name == "<=" && t.Args[1].Name == "0"
 		}},
 		{Name: "firstNil", Dom: boolDom, Match: func(t *Term) bool { x, ok := isNilTest(t); return ok && readOf(x, pi) }},
 		{Name: "secondNil", Dom: boolDom, Match: func(t *Term) bool { x, ok := isNilTest(t); return ok && readOf(x, pj) }},
